@@ -3,14 +3,14 @@ import os
 import vlib
 
 # (A) design model: exact M-step on a lattice + log-sum-exp on a lattice of weighted log-probabilities
-MODEL = {"quick": dict(MaxCells=4, MaxC=1, MaxK=2, RD=2, Forms='{"stable"}'),
-         "thorough": dict(MaxCells=4, MaxC=2, MaxK=2, RD=2, Forms='{"stable"}')}
-NAIVE = dict(MaxCells=2, MaxC=1, MaxK=2, RD=2, Forms='{"naive"}')
+MODEL = {"quick": dict(MaxN=3, MaxCells=4, MaxC=1, MaxK=2, RD=2, Forms='{"stable"}'),
+         "thorough": dict(MaxN=4, MaxCells=4, MaxC=2, MaxK=2, RD=2, Forms='{"stable"}')}
+NAIVE = dict(MaxN=2, MaxCells=2, MaxC=1, MaxK=2, RD=2, Forms='{"naive"}')
 INVS = ["InvExact", "InvRegPD", "InvSylvester", "InvModel", "InvK1", "InvFailed", "InvRow", "InvSensitive", "InvPd3"]
 ACTIONS = ["ChooseCfg", "ChooseData", "MEmpty", "MSingular", "MStep", "Query"]
 # (B) generator
-GEN = {"quick": dict(Tier='"quick"', Thin=6), "thorough": dict(Tier='"thorough"', Thin=5)}
-TRACE_CONST = dict(MaxCells=0, MaxC=0, MaxK=0, RD=1, Forms="{}")
+GEN = {"quick": dict(Tier='"quick"', Thin=6), "thorough": dict(Tier='"thorough"', Thin=6)}
+TRACE_CONST = dict(MaxN=0, MaxCells=0, MaxC=0, MaxK=0, RD=1, Forms="{}")
 
 REGS = [(0, 1), (1, 1000000), (1, 10000), (1, 100), (1, 2), (3, 1)]
 CFGS = [(1, 1000, 1, 100), (1, 1000000, 1, 300), (1, 10, 2, 100), (1, 1000, 1, 3), (1, 1000000, 3, 4), (1, 100000, 1, 8)]
